@@ -512,19 +512,19 @@ Qed.
    exchanged for the granted one yields a token for it, a refresh that names the other resource is
    refused, and introspection reports exactly the granted resource *)
 Definition ex_res_ops : list op :=
-  let p := mkParams 0 "https://c/cb" "" "code" "openid" "s" "" PkEmpty "" 0 "" 0 "" ["https://a"; "https://b"] in
-  let tr code res := mkTReq (mkCred 1 true) no_bind "" code "https://c/cb" 0 PkEmpty 0 HgOk BaApprove res AsNone in
-  let rf rt res := mkTReq (mkCred 1 true) no_bind "" 0 "" rt PkEmpty 0 HgOk BaApprove res AsNone in
-  [OpAuthorize (mkAReq 1 p true (PolSuccess "alice" "openid" ["https://a"]));
+  let p := mkParams 0 "https://c/cb" "" "code" "openid" "s" "" PkEmpty "" 0 "" 0 "" ["https://a"; "https://b"] None in
+  let tr code res := mkTReq (mkCred 1 true) no_bind "" code "https://c/cb" 0 PkEmpty 0 HgOk BaApprove res AsNone None in
+  let rf rt res := mkTReq (mkCred 1 true) no_bind "" 0 "" rt PkEmpty 0 HgOk BaApprove res AsNone None in
+  [OpAuthorize (mkAReq 1 p true (PolSuccess "alice" "openid" ["https://a"] []));
    OpToken GAuthorizationCode (tr (mint 0 KCode) ["https://b"]);
-   OpAuthorize (mkAReq 1 p true (PolSuccess "alice" "openid" ["https://a"]));
+   OpAuthorize (mkAReq 1 p true (PolSuccess "alice" "openid" ["https://a"] []));
    OpToken GAuthorizationCode (tr (mint 2 KCode) ["https://a"]);
    OpToken GRefreshToken (rf (mint 3 KRefresh) ["https://b"]);
    OpToken GRefreshToken (rf (mint 3 KRefresh) []);
    OpIntrospect (mkQReq (mkCred 1 true) (PExact (mint 5 KAtOpaque)) true)].
 Example resources_flow_exists :
   let c1 := mkClient 1 false [GAuthorizationCode; GRefreshToken] ["code"] ["https://c/cb"] "openid" CibaNone
-              false false false false false false false 0 false in
+              false false false false false false false 0 false None in
   let w := mkWorld (match build POpenID [WithAuthorizationCodeGrant; WithRefreshTokenGrant 600%Z; WithTokenIntrospection;
                                          WithResourceIndicators "https://a" ["https://b"]]
                     with Some c => c | None => base_config POpenID end) [c1] in
